@@ -41,11 +41,34 @@ func (in *Interp) unop(fr *frame, instr *ssa.UnOp, x Value) Value {
 
 func (in *Interp) binop(op token.Token, t types.Type, x, y Value) Value {
 	tt := in.tt
-	switch op {
-	case token.EQL:
-		return in.equal(t, x, y)
-	case token.NEQ:
-		return tt.Not(in.equal(t, x, y))
+	_, xb := x.(BitLenV)
+	_, yb := y.(BitLenV)
+	if !xb && !yb {
+		switch op {
+		case token.EQL:
+			return in.equal(t, x, y)
+		case token.NEQ:
+			return tt.Not(in.equal(t, x, y))
+		}
+	}
+	if bl, ok := x.(BitLenV); ok {
+		if c, isT := y.(*Term); isT && c.IsConst() {
+			if r := in.bitLenCmp(op, bl, toSigned(c.val, c.sort.W).Int64()); r != nil {
+				return r
+			}
+		}
+		x = in.bitLenTerm(bl)
+	}
+	if bl, ok := y.(BitLenV); ok {
+		if c, isT := x.(*Term); isT && c.IsConst() {
+			flip := map[token.Token]token.Token{token.LSS: token.GTR, token.GTR: token.LSS, token.LEQ: token.GEQ, token.GEQ: token.LEQ, token.EQL: token.EQL, token.NEQ: token.NEQ}
+			if f, ok := flip[op]; ok {
+				if r := in.bitLenCmp(f, bl, toSigned(c.val, c.sort.W).Int64()); r != nil {
+					return r
+				}
+			}
+		}
+		y = in.bitLenTerm(bl)
 	}
 	switch xv := x.(type) {
 	case *Term:
@@ -65,6 +88,10 @@ func (in *Interp) binop(op token.Token, t types.Type, x, y Value) Value {
 		_, signed, _ := intInfo(t)
 		w := xv.sort.W
 		switch op {
+		case token.EQL:
+			return tt.Eq(xv, yv)
+		case token.NEQ:
+			return tt.Not(tt.Eq(xv, yv))
 		case token.ADD:
 			return tt.BvAdd(xv, yv)
 		case token.SUB:
@@ -179,6 +206,44 @@ func (in *Interp) binop(op token.Token, t types.Type, x, y Value) Value {
 	return nil
 }
 
+// bitLenCmp: BitLen(x) op k as one integer comparison on |x|.
+func (in *Interp) bitLenCmp(op token.Token, bl BitLenV, k int64) Value {
+	tt := in.tt
+	ge := func(n int64) *Term { // BitLen >= n  <=>  |x| >= 2^(n-1)   (n >= 1)
+		if n <= 0 {
+			return tt.True
+		}
+		if n > 1<<20 {
+			return tt.False
+		}
+		return tt.ILe(tt.IntConst(pow2(int(n-1))), bl.Abs)
+	}
+	switch op {
+	case token.GTR:
+		return ge(k + 1)
+	case token.GEQ:
+		return ge(k)
+	case token.LSS:
+		return tt.Not(ge(k))
+	case token.LEQ:
+		return tt.Not(ge(k + 1))
+	case token.EQL:
+		return tt.And(ge(k), tt.Not(ge(k+1)))
+	case token.NEQ:
+		return tt.Not(tt.And(ge(k), tt.Not(ge(k+1))))
+	}
+	return nil
+}
+
+func (in *Interp) bitLenTerm(bl BitLenV) *Term {
+	tt := in.tt
+	r := tt.BVI(1<<20, 64)
+	for k := 520; k >= 0; k-- {
+		r = tt.Ite(tt.ILt(bl.Abs, tt.IntConst(pow2(k))), tt.BVI(int64(k), 64), r)
+	}
+	return r
+}
+
 func (in *Interp) symStrBinop(op token.Token, a, b *SymStr) Value {
 	tt := in.tt
 	switch op {
@@ -220,6 +285,12 @@ func (in *Interp) conv(tdst, tsrc types.Type, x Value) Value {
 	us := tsrc.Underlying()
 	if p, ok := x.(Poison); ok {
 		in.unsupported("conversion of poisoned value: %s", p.Why)
+	}
+	if bl, ok := x.(BitLenV); ok {
+		if dw, _, isInt := intInfo(ud); isInt && dw == 64 {
+			return bl
+		}
+		x = in.bitLenTerm(bl)
 	}
 	switch ud := ud.(type) {
 	case *types.Basic:
